@@ -33,7 +33,9 @@ func (t *TextTemplater) Apply(payload []byte, metadata map[string]string, variab
 	strBuilder.Reset()
 
 	for k, v := range metadata {
-		tmpl, err = t.getTemplate(v, scenarioName, stepName, k)
+		// own name space for metadata templates: a metadata entry called "payload" must not
+		// pick up the cached payload template
+		tmpl, err = t.getTemplate(v, scenarioName, stepName, "metadata_"+k)
 		if err != nil {
 			return nil, fmt.Errorf("%s, template.Execute Header %s, %w", op, k, err)
 		}
